@@ -26,6 +26,14 @@ Definition sem_arith (o : xbinop) (a b : Q) : option Q :=
 Definition as_bool (v : xvalue) : option bool :=
   match v with VBool b => Some b | VNull => Some false | _ => None end.
 
+(* expressions that may stand where a condition is expected (operands of AND / OR, WHEN) *)
+Fixpoint is_cond (e : xexpr) : bool :=
+  match e with
+  | ECmp _ _ _ | EAnd _ _ | EOr _ _ | ECol _ => true
+  | EParen x => is_cond x
+  | _ => false
+  end.
+
 Section OptMap.
 Context {A B : Type} (f : A -> option B).
 Fixpoint omapM (l : list A) : option (list B) :=
@@ -64,21 +72,23 @@ Fixpoint sem (e : xexpr) : option xvalue :=
       | _, _ => None
       end
   | EAnd l r =>
+      if is_cond l && is_cond r then
       match sem l, sem r with
       | Some a, Some b => match as_bool a, as_bool b with
                           | Some x, Some y => Some (VBool (x && y))
                           | _, _ => None
                           end
       | _, _ => None
-      end
+      end else None
   | EOr l r =>
+      if is_cond l && is_cond r then
       match sem l, sem r with
       | Some a, Some b => match as_bool a, as_bool b with
                           | Some x, Some y => Some (VBool (x || y))
                           | _, _ => None
                           end
       | _, _ => None
-      end
+      end else None
   | ECall g args =>
       match omapM sem args with
       | Some vs => match fn_call g vs with FOk v => Some v | _ => None end
@@ -91,6 +101,7 @@ Fixpoint sem_case (ws : list (xexpr * xexpr)) (els : option xexpr) : option xval
   match ws with
   | [] => match els with Some e => sem e | None => Some VNull end
   | (c, x) :: ws' =>
+      if negb (is_cond c) then None else
       match sem c with
       | Some v => match as_bool v with
                   | Some true => sem x
